@@ -282,6 +282,7 @@ def run(prog: Program, rep: Report, tier: str) -> None:
     from ..share import share
 
     share(prog, rep, "C17", ("R17.1", "R17.2"), "R01.7", "the stage positions of a scheme are clipped to the particle's own axis limits before the velocity is sampled there", 4, only=lambda o: o.func.startswith("tracker.") or "tracker." in o.construct)
+    share(prog, rep, "C03", ("R03.2", "R03.3"), "R01.8", "the velocity field the stages sample is the time interpolation of the frames from the very first step on (priming at the start, hand-over at frames)", 10)
 
 
 
